@@ -29,6 +29,7 @@ type Cfg struct {
 
 type Env struct {
 	Force, Post bool
+	Adm         int // admin endpoint: 0 disabled, 1 enabled on a private unix socket, 2 enabled and provisioning the admin routers fails
 	Blocked     []int
 	PP, PS      []int
 }
@@ -97,7 +98,7 @@ func b2i(b bool) int {
 }
 
 func (e Env) String() string {
-	return fmt.Sprintf("%d,%d,%s,%s,%s", b2i(e.Force), b2i(e.Post), showNats(e.Blocked), showNats(e.PP), showNats(e.PS))
+	return fmt.Sprintf("%d,%d,%d,%s,%s,%s", b2i(e.Force), b2i(e.Post), e.Adm, showNats(e.Blocked), showNats(e.PP), showNats(e.PS))
 }
 
 func (o Op) String() string {
@@ -272,16 +273,17 @@ func namesOk(l []int) bool {
 
 func parseEnv(s string) (Env, bool) {
 	p := strings.Split(s, ",")
-	if len(p) != 5 {
+	if len(p) != 6 {
 		return Env{}, false
 	}
 	if (p[0] != "0" && p[0] != "1") || (p[1] != "0" && p[1] != "1") {
 		return Env{}, false
 	}
-	b, ok1 := natList(p[2])
-	pp, ok2 := natList(p[3])
-	ps, ok3 := natList(p[4])
-	if !ok1 || !ok2 || !ok3 || !namesOk(pp) || !namesOk(ps) {
+	adm, ok0 := atoi(p[2])
+	b, ok1 := natList(p[3])
+	pp, ok2 := natList(p[4])
+	ps, ok3 := natList(p[5])
+	if !ok0 || adm > 2 || !ok1 || !ok2 || !ok3 || !namesOk(pp) || !namesOk(ps) {
 		return Env{}, false
 	}
 	for _, a := range b {
@@ -289,7 +291,24 @@ func parseEnv(s string) (Env, bool) {
 			return Env{}, false
 		}
 	}
-	return Env{p[0] == "1", p[1] == "1", b, pp, ps}, true
+	return Env{p[0] == "1", p[1] == "1", adm, b, pp, ps}, true
+}
+
+// admConsistent: identical admin settings across the history — the endpoint is disabled in
+// every operation or enabled in every operation.
+func admConsistent(ops []Op) bool {
+	all0, all1 := true, true
+	for _, o := range ops {
+		if o.Kind == 'J' || o.Kind == 'S' {
+			continue
+		}
+		if o.Env.Adm == 0 {
+			all1 = false
+		} else {
+			all0 = false
+		}
+	}
+	return all0 || all1
 }
 
 func parseOp(s string) (Op, bool) {
@@ -336,6 +355,9 @@ func ParseCase(line string) ([]Op, bool) {
 			return nil, false
 		}
 		ops = append(ops, o)
+	}
+	if !admConsistent(ops) {
+		return nil, false
 	}
 	return ops, true
 }
